@@ -83,6 +83,12 @@ class Ranges:
             if self.wide:
                 return a
             return (a[0], min(a[1], (1 << fw) - 1))
+        if op == "sext":
+            a = self.base(i.ops[0], depth + 1, blk)
+            fw = _w(i.d.get("fromty", "i32"))
+            if a[1] < (1 << (fw - 1)):
+                return a
+            return full
         if op == "trunc":
             a = self.base(i.ops[0], depth + 1, blk)
             if a[1] <= tymax:
@@ -109,6 +115,11 @@ class Ranges:
             a, b = self.base(i.ops[0], depth + 1, blk), self.base(i.ops[1], depth + 1, blk)
             if a[1] * b[1] <= tymax:
                 return (a[0] * b[0], a[1] * b[1])
+            return full
+        if op == "ashr":
+            a, b = self.base(i.ops[0], depth + 1, blk), self.base(i.ops[1], depth + 1, blk)
+            if a[1] < (1 << (w - 1)) and b[0] == b[1] and b[0] < 64:
+                return (a[0] >> b[0], a[1] >> b[0])
             return full
         if op in ("lshr", "udiv"):
             a, b = self.base(i.ops[0], depth + 1, blk), self.base(i.ops[1], depth + 1, blk)
